@@ -79,7 +79,10 @@ def make_scene(rng, tier):
     keep = rng.permutation(len(seg))[:int(np.ceil(0.7 * len(seg))) + 1]
     if isinstance(plan, str):
         # block structured field (still inside the domain): the same swap on every bin outside the kept part of the first segment
-        perm[:] = rng.permutation(K)
+        sw = rng.permutation(K)
+        while (sw == np.arange(K)).all():
+            sw = rng.permutation(K)          # a genuine (non-identity) reordering
+        perm[:] = sw
     perm[seg[keep]] = np.arange(K)
     blur = 0.2
     onehot = np.eye(K)[lab].T                                   # (K, T)
